@@ -286,6 +286,10 @@ Definition zmax_list (l : list Z) : Z := fold_right Z.max 0 l.
 Definition import_ms (ctr : bool) (g : list (Z * Z) * list (Z * Z)) : ms_state :=
   mkMsState (if ctr then zmax_list (map fst (fst g)) else 0) (if ctr then zmax_list (map fst (snd g)) else 0) (fst g) (snd g) [] [].
 Definition reimport_ms (ctr : bool) (s : ms_state) : ms_state := import_ms ctr (export_ms s).
+(* a variant that takes the undelegation counter from the LAST entry of the list (seeded change C03-c):
+   correct only for lists in ascending id order *)
+Definition import_ms_lastentry (g : list (Z * Z) * list (Z * Z)) : ms_state :=
+  mkMsState (zmax_list (map fst (fst g))) (last (map fst (snd g)) 0) (fst g) (snd g) [] [].
 
 Fixpoint upsert (k v : Z) (l : list (Z * Z)) : list (Z * Z) :=
   match l with
